@@ -344,7 +344,7 @@ func runCase(c *Case) (res Result) {
 		res.Stack = truncate(st, 12000)
 		res.Detail = fmt.Sprintf("no result after %s", caseWatchdog)
 		for _, g := range strings.Split(st, "\n\n") {
-			if strings.Contains(g, "main.runCase.func1") {
+			if strings.Contains(g, "created by main.runCase") {
 				res.Site = siteOf(g)
 				res.Stack = truncate(g, 6000) // the stack of the goroutine that runs the case
 			}
